@@ -148,9 +148,14 @@ Proof.
   - rewrite Em in E. destruct rm as [m|]; [|discriminate]. injection E as <-. assumption.
 Qed.
 
-Example ex_small_in : In (XStar true (one (XSub (one (XRep false 1 (Some 2) (one (XChr (CsRange ca cb)))))))) small_xsres
-                      /\ In [ca; ca; cb] small_strings.
-Proof. split; vm_compute; tauto. Qed.
+Example ex_small_in :
+  nth 707 small_xsres XEps = XStar true (one (XSub (one (XRep false 1 (Some 2) (one (XChr (CsRange ca cb)))))))
+  /\ In (nth 707 small_xsres XEps) small_xsres /\ In (nth 30 small_strings []) small_strings
+  /\ nth 30 small_strings [] = [newline; ca; cb].
+Proof.
+  split; [vm_compute; reflexivity|]. split; [apply nth_In; vm_compute; lia|]. split; [apply nth_In; vm_compute; lia|].
+  vm_compute; reflexivity.
+Qed.
 
 Example ex_small_sizes : length small_xsres = 870 /\ length small_strings = 44.
 Proof. vm_compute. split; reflexivity. Qed.
